@@ -672,7 +672,7 @@ func produceEnvEvent(s *Sim, admin *RawCli, ev plan.Event, nb int, nparts int32)
 		req.Topics = append(req.Topics, rt)
 		req.TimeoutMillis = 5000
 		c := s.Raw("envadmin")
-		if _, err := c.Do(0, req); err == nil {
+		if _, err := c.DoController(req); err == nil {
 			s.Count("env.create_topic", 1)
 			s.Logf("ENV create topic late")
 		}
@@ -686,7 +686,7 @@ func produceEnvEvent(s *Sim, admin *RawCli, ev plan.Event, nb int, nparts int32)
 		req.Topics = append(req.Topics, rt)
 		req.TimeoutMillis = 5000
 		c := s.Raw("envadmin")
-		if _, err := c.Do(0, req); err == nil {
+		if _, err := c.DoController(req); err == nil {
 			s.Count("env.delete_topic", 1)
 			s.Logf("ENV delete topic %s", t)
 		}
